@@ -157,8 +157,6 @@ Rel86(id, asm, forms, enc) == Sh("8086", "8086", id, asm, "rel", enc, 1, forms)
 Abs86(id, asm, pre, post) == Sh("8086", "8086", id, asm, "abs", "abs", Len(pre), <<Fm(pre, 2, post)>>)
 Shapes8086 == <<
   Rel86("jmp", "jmp %s", <<Fm(<<235>>, 1, <<>>), Fm(<<233>>, 2, <<>>)>>, "jmp86"),
-  Rel86("jmp_short", "jmp SHORT %s", <<Fm(<<235>>, 1, <<>>)>>, "jmp86"),
-  Rel86("jmp_near", "jmp NEAR %s", <<Fm(<<233>>, 2, <<>>)>>, "jmp86"),
   Rel86("call", "call %s", <<Fm(<<232>>, 2, <<>>)>>, "jmp86"),
   Rel86("jz", "jz %s", <<Fm(<<116>>, 1, <<>>)>>, "rel2"),     Rel86("jnz", "jnz %s", <<Fm(<<117>>, 1, <<>>)>>, "rel2"),
   Rel86("jc", "jc %s", <<Fm(<<114>>, 1, <<>>)>>, "rel2"),     Rel86("loop", "loop %s", <<Fm(<<226>>, 1, <<>>)>>, "rel2"),
@@ -176,7 +174,7 @@ Shapes8086 == <<
 \* ---- 68000 (big-endian).  d16(PC): relative to the address of its extension word; Bcc/BSR/DBcc: instruction + 2
 Bcc68k(id, asm, op, nop) == Sh("68000", "68000", id, asm, "rel", "bcc68k", 2,
    (IF nop THEN <<FmK(<<78, 113>>, 0, <<>>, 2)>> ELSE <<>>) \o <<FmK(<<op>>, 1, <<>>, 2), FmK(<<op, 0>>, 2, <<>>, 2)>>)
-BccS68k(id, asm, op) == Sh("68000", "68000", id, asm, "rel", "bcc68k", 2, <<FmK(<<op>>, 1, <<>>, 2)>>)
+BccS68k(id, asm, op) == Sh("68000", "68000", id, asm, "rel", "bcc68k", 2, <<FmK(<<78, 113>>, 0, <<>>, 2), FmK(<<op>>, 1, <<>>, 2)>>)
 BccW68k(id, asm, op) == Sh("68000", "68000", id, asm, "rel", "bcc68k", 2, <<FmK(<<op, 0>>, 2, <<>>, 2)>>)
 Bsr68k(id, asm, forms) == Sh("68000", "68000", id, asm, "rel", "bsr68k", 2, forms)
 Pc68k(id, asm, pre) == Sh("68000", "68000", id, asm, "rel", "pc68k", Len(pre), <<FmK(pre, 2, <<>>, Len(pre))>>)
@@ -337,6 +335,7 @@ Holds(sh, fm, a, v, nl) ==
   CASE sh.k = "rel" -> LET d == Disp(sh, fm, a, v) IN
                        CASE fm.fw = 0 -> d = 0
                          [] fm.fw = 1 -> /\ d >= -128 /\ d <= 127
+                                         /\ (sh.enc = "pcr09" => d # 127)     \* code6809.c MayShort: Arg < 127
                                          /\ (sh.enc \in {"bcc68k", "bsr68k"} => d # 0)
                                          /\ ~(sh.enc = "bsr68k" /\ Len(sh.forms) > 1 /\ nl /\ d = 2)
                          [] OTHER     -> TRUE
